@@ -57,6 +57,12 @@ SerTxDev(tx, w) ==
       \o (IF ext THEN CatMap(SerWitStackDev, tx.ins, 1) ELSE <<>>)
       \o tx.locktime
 
+\* ------------------------------------------------------- sizes (BIP141)
+Size(tx) == Len(SerTx(tx, TRUE))
+StrippedSize(tx) == Len(SerTx(tx, FALSE))
+Weight(tx) == 3 * StrippedSize(tx) + Size(tx)
+VSize(tx) == (Weight(tx) + 3) \div 4
+
 \* ------------------------------------------------------------------ parser
 Slice(b, p, n) == SubSeq(b, p, p + n - 1)
 \* CompactSize at position p as a small natural: [ok, v, p] (p = next position)
